@@ -32,6 +32,13 @@ pub fn cmap_records(cmap: &[u8]) -> Option<Vec<CmapRecord>> {
 /// `None` = malformed or unsupported format.
 pub fn cmap_mappings(sub: &[u8]) -> Option<BTreeMap<u32, u16>> {
     let mut m = BTreeMap::new();
+    // a reader that honours the subtable's own length field (FreeType validates it, and a table directory may place other
+    // data right behind the subtable): nothing beyond the declared length is visible
+    let declared = match crate::be::u16_at(sub, 0)? {
+        0 | 2 | 4 | 6 => crate::be::u16_at(sub, 2)? as usize,
+        _ => crate::be::u32_at(sub, 4)? as usize,
+    };
+    let sub = sub.get(..declared)?;
     let mut r = R::new(sub);
     let format = r.u16()?;
     match format {
